@@ -112,8 +112,8 @@ def run(ctx):
     if quick:
         none = [c for c in cases if '"loc":"none"' in c]
         rest = [c for c in cases if '"loc":"none"' not in c]
-        keep = none + rnd.sample(rest, min(len(rest), 2000))
-        nrand, nchk, ninj, workers = 600, 3, 5, 8
+        keep = none + rnd.sample(rest, min(len(rest), 1600))
+        nrand, nchk, ninj, workers = 500, 3, 5, 6
     else:
         keep = cases
         nrand, nchk, ninj, workers = 12000, 8, 16, 8
@@ -124,8 +124,8 @@ def run(ctx):
     p = vlib.run([binp, "-mode", "hostile", "-scenarios", plan, "-trace", tp, "-rand", str(nrand), "-seed", str(ctx.seed),
                   "-workers", str(workers), "-chunkings", str(nchk), "-inject", str(ninj)], timeout=3000)
     st = json.loads(p.stdout.strip().splitlines()[-1])
-    log("[C15] driver: %d cases (%d from TLC, %d random), %d events, %d process aborts attributed, %d recycles in %.1fs"
-        % (st["cases"], st["tlc_cases"], st["cases"] - st["tlc_cases"], st["events"], st["crashes"], st["recycles"], time.time() - t0 - g.wall))
+    log("[C15] driver: %d cases (%d from TLC, %d random), %d events, %d process aborts attributed, %d children replaced after a large allocation, %d restarts in %.1fs"
+        % (st["cases"], st["tlc_cases"], st["cases"] - st["tlc_cases"], st["events"], st["crashes"], st["recycles"], st.get("restarts", 0), time.time() - t0 - g.wall))
     ev = vlib.read_ndjson(tp)
     # split at case boundaries and validate the parts in parallel
     starts = [i for i, e in enumerate(ev) if e["op"] == "case"]
@@ -207,8 +207,8 @@ def run(ctx):
     vlib.write_evidence(PID, ctx.tier, ctx.seed, "exploration", cov, time.time() - t0, len(V.violations),
                         ["allocation bound: c0 = 1 MiB, c1 = 8 (NgReader.tla); bytes present = plain + gzip-wrapped stream length; declared snap length as parsed by the reader",
                          "per-call allocation is the delta of the cumulative heap-allocation counter (runtime/metrics /gc/heap/allocs:bytes = MemStats.TotalAlloc, read without stopping the world); the plain and gzip whole-stream runs are additionally bounded by the MemStats.TotalAlloc delta of the run",
-                         "children run under RLIMIT_AS = 3 GiB; an allocation the cap refuses is judged by its requested size taken from the runtime's abort message",
+                         "children run under RLIMIT_AS = 3 GiB (their own virtual size is ~1.55 GiB): a single allocation above ~1.4 GiB is refused inside mallocgc without touching memory and judged by the requested size printed by the runtime (on the repaired tree these are exactly the zero-copy buffers make([]byte, snaplen) for a declared snap length of 1.5-4 GiB); smaller ones succeed and are measured by the allocation counters; a child is replaced after any allocation > 32 MiB; an abort is attributed to the case in progress through a marker; a child that dies outside any case, is killed by a signal or cannot get threads/memory for the runtime itself is restarted (bounded)",
                          "gzip-wrapped streams: safety envelope and chunking determinism only (no equality with the plain stream is demanded)",
-                         "quick tier samples 2000 of the TLC-enumerated corruptions (plus every uncorrupted base) by the seed; thorough runs all"])
+                         "quick tier samples 1600 of the TLC-enumerated corruptions (plus every uncorrupted base) by the seed; thorough runs all"])
     shutil.rmtree(wd, ignore_errors=True)
     return rc
